@@ -359,3 +359,19 @@ package dotgit
 //gvc:  opt coarse
 //gvc:  opt frame args
 //gvc:end
+
+// looseReference (C16: a reader never takes an empty loose file for a failure
+// or for the value of the reference): a zero-byte loose reference file -- left
+// behind by a refused check-and-set on a packed-only reference, or met in the
+// middle of an update -- holds no value; listing the references passes it over
+// (the packed value, if any, is listed from packed-refs) instead of failing
+// with ErrEmptyRefFile.
+//gvc:func (*DotGit).looseReference
+//gvc:  props C16
+//gvc:  theory int
+//gvc:  opt coarse
+//gvc:  opt frame args
+//gvc:  opt callees abstract
+//gvc:  results ref err
+//gvc:  ensures tolerant: !is(err, ErrEmptyRefFile)
+//gvc:end
